@@ -1602,14 +1602,6 @@ def preprocess_arg(arg: ColExpr, table: Table, *, agg_is_window: bool = True) ->
                 "use in pydiverse.transform"
             )
 
-        if (
-            agg_is_window
-            and isinstance(expr, ColFn)
-            and "partition_by" not in expr.context_kwargs
-            and (expr.op.ftype in (Ftype.WINDOW, Ftype.AGGREGATE))
-        ):
-            expr.context_kwargs["partition_by"] = [table._cache.cols[uid] for uid in table._cache.partition_by]
-
         if isinstance(expr, ColName):
             return table[expr.name]
 
@@ -1620,6 +1612,18 @@ def preprocess_arg(arg: ColExpr, table: Table, *, agg_is_window: bool = True) ->
                 eval_aligned=eval_aligned | isinstance(expr, EvalAligned),
             )
         )
+
+        # The grouping of the table is attached to the copy only: the caller's
+        # expression object may be reused under a different grouping state.
+        if (
+            agg_is_window
+            and isinstance(new, ColFn)
+            and "partition_by" not in new.context_kwargs
+            and (new.op.ftype in (Ftype.WINDOW, Ftype.AGGREGATE))
+        ):
+            new.context_kwargs = new.context_kwargs | {
+                "partition_by": [table._cache.cols[uid] for uid in table._cache.partition_by]
+            }
 
         # add casts for boolean add / sum
         # If we have more operations like these, which we want to map to other
